@@ -204,6 +204,9 @@ type Driver struct {
 
 	errs chan error
 	done chan bool
+	// closeOnce guards closing done, so that Close can be called more than once (and never blocks
+	// on a read loop that is not listening).
+	closeOnce sync.Once
 }
 
 // Open opens the underlying generic.Driver, and by extension the channel.Channel and Transport
@@ -243,6 +246,10 @@ func (d *Driver) Open() (reterr error) {
 		return err
 	}
 
+	// fresh "done" signal for this read loop (the previous one, if any, has been closed by Close)
+	d.done = make(chan bool)
+	d.closeOnce = sync.Once{}
+
 	go d.read()
 
 	return nil
@@ -257,7 +264,8 @@ func (d *Driver) Close() error {
 	)
 
 	verifhook.Point("nc.close.done-send")
-	d.done <- true
+	// closing (rather than sending on) done can never block, whatever the read loop is doing
+	d.closeOnce.Do(func() { close(d.done) })
 	verifhook.Point("nc.close.done-sent")
 
 	err := d.Channel.Close()
